@@ -84,6 +84,51 @@ fn fingerprint(name: &str, metas: Vec<(&'static str, MetaType)>) {
     let bits: Vec<u32> = p.types.iter().filter(|t| matches!(t.ty.type_def, TypeDef::BitSequence(_))).map(|t| t.id).collect();
     let map = kept.retain(|id| id % 3 == 0 || bits.contains(&id));
     println!("{}_retained_nodocs kept={} bytes={}", name, map.len(), hex(&kept.encode()));
+    // the run-time builder fed every (docs-stripped) definition and a copy that differs in one doc line only: docs given as
+    // plain data are part of a definition in every build, so each copy is its own entry whatever the features are
+    let mut b = scale_info::PortableRegistryBuilder::new();
+    let mut distinct: Vec<&scale_info::Type<scale_info::form::PortableForm>> = Vec::new();
+    for t in &p.types {
+        if !distinct.contains(&&t.ty) {
+            distinct.push(&t.ty);
+        }
+        b.register_type(t.ty.clone());
+        let mut twin = t.ty.clone();
+        twin.docs.push("a copy that differs in this line only".into());
+        b.register_type(twin);
+    }
+    let built = b.finish();
+    println!("{}_builder_twins entries={} expected={} bytes={:016x}", name, built.types.len(), 2 * distinct.len(), fnv(&built.encode()));
+}
+
+fn fnv(b: &[u8]) -> u64 {
+    let mut h = 0xcbf29ce484222325u64;
+    for x in b {
+        h ^= *x as u64;
+        h = h.wrapping_mul(0x100000001b3);
+    }
+    h
+}
+
+/// A registry built from the first roots of the corpus, docs stripped: (entries, digest)
+fn small_registry() -> (usize, u64) {
+    let mut reg = Registry::new();
+    for (_, m) in gen::metas().iter().take(60) {
+        reg.register_type(m);
+    }
+    let mut p: PortableRegistry = reg.into();
+    strip_docs(&mut p);
+    (p.types.len(), fnv(&p.encode()))
+}
+
+/// Metadata dumped from a destructor that runs while the thread is unwinding (a crash reporter, a test harness).
+struct DumpOnDrop;
+
+impl Drop for DumpOnDrop {
+    fn drop(&mut self) {
+        let (n, d) = small_registry();
+        println!("small_while_unwinding entries={} bytes={:016x}", n, d);
+    }
 }
 
 /// C18 across configurations: the outcome of path construction for a fixed probe list
@@ -120,4 +165,12 @@ fn main() {
     fingerprint("base_again", gen::metas());
     #[cfg(feature = "bit-vec")]
     fingerprint("bitvec", gen::metas_bitvec());
+    let (n, d) = small_registry();
+    println!("small entries={} bytes={:016x}", n, d);
+    let _ = std::panic::catch_unwind(|| {
+        let _dump = DumpOnDrop;
+        panic!("probe: unwinding starts here");
+    });
+    let (n, d) = small_registry();
+    println!("small_after_unwinding entries={} bytes={:016x}", n, d);
 }
